@@ -1,5 +1,6 @@
 import BSModel.Driver.Util
 import BSModel.Model.EncodingIn
+import BSModel.Model.EncodingRx
 /-! line protocol of property C07 (see harness/c07.py for the grammar) -/
 namespace BS.Drv.C07
 open BS BS.EncodingIn BS.Drv
@@ -50,7 +51,38 @@ def sResult (r : Result) : String :=
 def mkArgs (html known override user excl : String) : Args :=
   { known := pNames known, override := pNames override, user := pNames user, exclude := pNames excl, isHtml := html == "1" }
 
+/-! regex fragment on the wire: atoms `;`-separated: `(` `)` `1/<cls>` `r<min1><many><greedy>/<cls>`;
+    cls: `L<c>` `N<c>` `A` `S` `O<sp><neg>,<c.c.c|->` -/
+def pCls (s : String) : Option Rx.Cls :=
+  match s.toList with
+  | 'L' :: r => (String.ofList r).toNat?.map .lit
+  | 'N' :: r => (String.ofList r).toNat?.map .notLit
+  | ['A'] => some .any
+  | ['S'] => some .space
+  | 'O' :: sp :: neg :: ',' :: r => some (.oneOf (natList "." (String.ofList r)) (sp == '1') (neg == '1'))
+  | _ => none
+
+def pAtom (s : String) : Option Rx.Atom :=
+  if s == "(" then some .gopen else if s == ")" then some .gclose else
+  match s.splitOn "/" with
+  | ["1", c] => (pCls c).map .one
+  | [h, c] =>
+    match h.toList with
+    | ['r', a, b, g] => (pCls c).map fun k => .rep k (a == '1') (b == '1') (g == '1')
+    | _ => none
+  | _ => none
+
+def sOptGroup : Option (List Nat) → String
+  | none => "none"
+  | some g => showL g
+
 def handle : List String → String
+  | ["declaredrx", isStr, b, html, entire] => sOptName (Rx.findDeclaredRx (isStr == "1") (cps b) (html == "1") (entire == "1"))
+  | ["rx", flavor, anchored, atoms, subject, endpos] =>
+    let F := if flavor == "s" then Rx.strFlavor else Rx.bytesFlavor
+    match (splitNE ";" atoms).mapM pAtom with
+    | none => "bad-pattern"
+    | some as => sOptGroup (Rx.search F ⟨anchored == "1", as⟩ (cps subject) endpos.toNat!)
   | ["declared", b, html] => sOptName (findDeclared (cps b) (html == "1"))
   | ["bom", b] => let r := stripBom (cps b); s!"{showL r.1} {sOptName r.2}"
   | ["encodings", b, html, known, override, user, excl] =>
